@@ -771,6 +771,12 @@ def wire_expr(node):
     if isinstance(node, ast.UnaryOp) and isinstance(node.op, ast.Not):
         a = wire_expr(node.operand)
         return None if a is None else [Atom('not'), a]
+    if isinstance(node, ast.Call) and isinstance(node.func, ast.Name) and not node.keywords and len(node.args) <= 1 \
+            and not any(isinstance(a, ast.Starred) for a in node.args):
+        if not node.args:
+            return [Atom('call'), node.func.id]
+        a = wire_expr(node.args[0])
+        return None if a is None else [Atom('call'), node.func.id, a]
     return None
 
 
@@ -823,6 +829,19 @@ def wire_dir(d, num):
             return [num, Atom({'ChooseDirective': 'choose', 'WhenDirective': 'when', 'StripDirective': 'unwrap'}[name]), e]
         if name == 'OtherwiseDirective':
             return [num, Atom('otherwise')]
+        if name == 'DefDirective':
+            if d.star_args is not None or d.dstar_args is not None:
+                return other
+            ps = []
+            for a in d.args:
+                if a in d.defaults:
+                    w = wire_expr(d.defaults[a].ast)
+                    if w is None:
+                        return other
+                    ps.append([a, w])
+                else:
+                    ps.append([a, proto.N])
+            return [num, Atom('def'), d.name, ps]
         return other
     if name == 'DomainDirective':
         return [num, Atom('domain'), d.domain]
